@@ -26,6 +26,9 @@ theorem sortByTs_perm_eq {α} (ts : α → Int) (l₁ l₂ : List α) (hp : l₁
 theorem genAsset_txRow_irrelevant (sd : Bool) (h : Nat → String) (p : Int) (st st' : GenState) (c : Computed)
     (hy : st.yearRow = st'.yearRow) (hs : st.summaryRow = st'.summaryRow) :
     genAsset true sd h p st c = genAsset true sd h p st' c := by
+  have : layoutAsset true h p st c = layoutAsset true h p st' c := by
+    unfold layoutAsset
+    simp only [hy, hs, if_true]
   unfold genAsset
-  simp only [hy, hs, if_true]
+  rw [this]
 end Rp2
